@@ -1087,6 +1087,17 @@ fn boundary_cases(out: &mut Out) {
                         items2[0] = Item::R(-1, None, -1);
                         one(out, &src, "contiguous", &[Op::Slc(items2)]);
                     }
+                    // two shrinking ranges: a second inner axis also selects a strict subset
+                    if n_items == r {
+                        for pos2 in 0..r {
+                            if pos2 != pos {
+                                let mut items3 = items.clone();
+                                items3[pos2] = Item::R(-1, None, -2);
+                                out.bucket("rank5_6_two_shrinking_ranges");
+                                one(out, &src, "contiguous", &[Op::Slc(items3)]);
+                            }
+                        }
+                    }
                 }
             }
         }
